@@ -315,9 +315,11 @@ def jobs(tier):
     out = []
     for a in range(len(OPS)):
         for b_ in range(len(OPS)):
-            out.append(dict(name=f"hist:K={K}:{OPS[a]},{OPS[b_]}", harness="rv.props.c06:h_hist",
-                            params=dict(K=K, pin_ops=[a, b_]), max_wall_s=600 if q else 3000,
-                            weight=3 if OPS[a].startswith("fail") else 1))
+            for c_ in (range(len(OPS)) if not q else [None]):
+                pins = [a, b_] + ([c_] if c_ is not None else [])
+                out.append(dict(name=f"hist:K={K}:" + ",".join(OPS[x] for x in pins), harness="rv.props.c06:h_hist",
+                                params=dict(K=K, pin_ops=pins), max_wall_s=600 if q else 2400,
+                                weight=3 if OPS[a].startswith("fail") else 1))
     for o in range(len(OPS)):
         out.append(dict(name=f"step:open:{OPS[o]}", harness="rv.props.c06:h_step_open", params=dict(pin_op=o, K=2 if q else 3),
                         max_wall_s=600 if q else 3000, weight=1))
